@@ -60,4 +60,37 @@ theorem designMatrices_eq_model (table : Parser.Table) (ops : Resolver.OpTable)
         simp only [selected] at this
         rw [this]
 
+/-- decidable form of `SameSelection` for a concrete text and frame -/
+def sameSel (table : Parser.Table) (ops : Resolver.OpTable) (formula : String) (f : Frame) : Bool :=
+  match Scanner.scan formula.toList with
+  | .ok ts =>
+    (match Parser.parse table ts with
+     | .ok e =>
+       (match Resolver.describe ops e with
+        | .ok m => (f.map (·.name)).all (fun c =>
+            (selected (NA.formulaVars e) f).contains c ==
+              (selected (modelVars (atomTable e) m) f).contains c)
+        | .error _ => true)
+     | .error _ => true)
+  | .error _ => true
+
+theorem selected_not_col (vars : List String) (f : Frame) (c : String)
+    (hc : c ∉ f.map (·.name)) : (selected vars f).contains c = false := by
+  cases h : (selected vars f).contains c
+  · rfl
+  · exfalso
+    have hm : c ∈ selected vars f := by simpa using h
+    simp only [selected, List.mem_filter] at hm
+    exact hc (by simpa using hm.2)
+
+theorem sameSel_sound (table : Parser.Table) (ops : Resolver.OpTable) (formula : String) (f : Frame)
+    (h : sameSel table ops formula f = true) : SameSelection table ops formula f := by
+  intro ts e m hs hp hd c
+  unfold sameSel at h
+  rw [hs] at h
+  simp only [hp, hd, List.all_eq_true, beq_iff_eq] at h
+  by_cases hc : c ∈ f.map (·.name)
+  · exact h c hc
+  · rw [selected_not_col _ f c hc, selected_not_col _ f c hc]
+
 end FormulaeModel.Pipeline
